@@ -410,7 +410,12 @@ class VM:
             # nested evaluation) is catchable by an enclosing try/catch
             if not self.exception_handlers:
                 raise
-            self._handle_python_exception(e.name, e.message)
+            if hasattr(e, "thrown"):
+                # What a nested evaluation threw and did not catch: the value
+                # itself goes on to the handler, not an error made from its text
+                self._throw(e.thrown)
+            else:
+                self._handle_python_exception(e.name, e.message)
 
     def _execute_opcode(self, op: OpCode, arg: Optional[int], frame: CallFrame) -> None:
         """Execute a single opcode."""
@@ -2908,18 +2913,22 @@ class VM:
             # Push exception value
             self.stack.append(exc)
         else:
-            # Uncaught exception
+            # Uncaught exception. The error that reports it carries the thrown
+            # value: when this interpreter runs inside another evaluation
+            # (eval), a handler out there receives that very value
             if isinstance(exc, str):
-                raise JSError(exc)
+                error = JSError(exc)
             elif isinstance(exc, JSObject):
                 msg = exc.get("message")
                 name = exc.get("name")
-                raise JSError(
+                error = JSError(
                     to_string(msg) if msg else "Error",
                     name if isinstance(name, str) and name else "Error",
                 )
             else:
-                raise JSError(to_string(exc))
+                error = JSError(to_string(exc))
+            error.thrown = exc
+            raise error
 
     def _handle_python_exception(self, error_type: str, message: str) -> None:
         """Convert a Python exception to a JavaScript exception and throw it."""
